@@ -47,6 +47,7 @@ type Contract struct {
 	Line          int
 	Fresh         bool // result is a fresh object
 	Function      bool // deterministic, heap-independent: calls are abstracted as fn_<name>_<k>(args)
+	GhostSet      map[string]*CExpr // ghost updates performed by the callee: name -> new value
 }
 
 type Ghost struct {
@@ -382,6 +383,20 @@ func parseContractFile(path string, extra ...string) (*ContractFile, error) {
 			continue
 		}
 		switch fields[0] {
+		case "ghostset":
+			// ghostset NAME EXPR: after a call the ghost NAME has value EXPR (old(NAME) = before the call)
+			if len(fields) < 3 {
+				return nil, fmt.Errorf("line %d: ghostset NAME EXPR", ln)
+			}
+			rest := strings.TrimSpace(l[strings.Index(l, fields[1])+len(fields[1]):])
+			e, err := parseCExpr(rest)
+			if err != nil {
+				return nil, fmt.Errorf("line %d: ghostset: %v", ln, err)
+			}
+			if cur.GhostSet == nil {
+				cur.GhostSet = map[string]*CExpr{}
+			}
+			cur.GhostSet[fields[1]] = &CExpr{Text: rest, ast: e, Line: ln, Props: cur.Props}
 		case "arith":
 			cur.ArithChecked = true
 		case "strings":
@@ -728,9 +743,10 @@ func (fx *FnExec) evalIdent(name string, env *evalEnv) (cval, error) {
 			return fx.cvalOf(v), nil
 		}
 	}
-	if g, ok := env.gh[name]; ok {
-		gs := fx.W.Contracts.ghost(name)
-		return cval{S: g, Sort: gs.Sort}, nil
+	if gs := fx.W.Contracts.ghost(name); gs != nil {
+		if g, ok := fx.ghostVal(env.gh, name); ok {
+			return cval{S: g, Sort: gs.Sort}, nil
+		}
 	}
 	// package-level constant or variable
 	if obj := fx.W.Pkg.Pkg.Scope().Lookup(name); obj != nil {
@@ -926,6 +942,15 @@ func (fx *FnExec) evalField(base cval, name string, env *evalEnv) (cval, error) 
 		}
 		var t string
 		fx.withHeap(env.heap, func() { t = fx.load(pl) })
+		// an object whose reference never left this activation cannot be found in memory
+		if len(fx.private) > 0 && env.bound == nil {
+			switch ft.Underlying().(type) {
+			case *types.Pointer, *types.Map:
+				for _, po := range fx.private {
+					fx.assume("(distinct " + t + " " + po.ref + ")")
+				}
+			}
+		}
 		return cval{S: t, T: ft, Sort: fx.sortOf(ft), P: nil}, nil
 	}
 	si := fx.W.structInfoOf(el)
@@ -1156,6 +1181,25 @@ func (fx *FnExec) evalCallC(x *ast.CallExpr, env *evalEnv) (cval, error) {
 		fx.declareFun(fn.Name, sorts, "Int")
 		return cval{S: "(" + fn.Name + " " + strings.Join(args, " ") + ")", Sort: "Int", T: types.Typ[types.Int]}, nil
 	}
+	if fn.Name == "elemsArr" || fn.Name == "off" {
+		v, err := fx.evalC(x.Args[0], env)
+		if err != nil {
+			return cval{}, err
+		}
+		st, ok := v.T.Underlying().(*types.Slice)
+		if !ok {
+			return cval{}, fmt.Errorf("%s: not a slice", fn.Name)
+		}
+		if fn.Name == "off" {
+			return cval{S: "(s.off " + v.S + ")", Sort: "Int", T: types.Typ[types.Int]}, nil
+		}
+		var r string
+		fx.withHeap(env.heap, func() {
+			name, sort := fx.elemHeap(st.Elem())
+			r = "(select " + fx.heapArr(name, sort) + " (s.arr " + v.S + "))"
+		})
+		return cval{S: r, Sort: "(Array Int " + fx.sortOf(st.Elem()) + ")"}, nil
+	}
 	if fn.Name == "freshRef" {
 		v, err := fx.evalC(x.Args[0], env)
 		if err != nil {
@@ -1303,6 +1347,12 @@ func mergeContract(dst, grp *Contract) {
 	}
 	if grp.ArithChecked {
 		dst.ArithChecked = true
+	}
+	for k, v := range grp.GhostSet {
+		if dst.GhostSet == nil {
+			dst.GhostSet = map[string]*CExpr{}
+		}
+		dst.GhostSet[k] = v
 	}
 	if grp.Fresh {
 		dst.Fresh = true
